@@ -5,11 +5,21 @@ import Sourmash.Spec.Gather
 Request lines: see harness/src/bin/c08.rs. -/
 open Driver
 
+/-- model rows + spec matches + spec statistics of one threshold: the four requests `gather` / `cover` /
+`stats` / `wstats` of a threshold share one evaluation (the LARGE cases cost ~1 s per evaluation with
+the list-based definitions, which are used as they are) -/
+structure Memo where
+  t : Nat
+  rows : List Gather.Row
+  ms : List GatherSpec.Match
+  st : List GatherSpec.Stat
+
 structure S08 where
   scaled : Nat := 1
   track : Bool := false
   dsets : List (List Nat) := []
   q : List (Nat × Nat) := []
+  memo : Option Memo := none
 
 def hex16 (x : UInt64) : String :=
   String.ofList ((List.range 16).map (fun i => hexDigit ((x.toNat >>> (4 * (15 - i))) % 16)))
@@ -54,25 +64,62 @@ def showRow (track : Bool) (r : Gather.Row) : String :=
 def cfgOf (s : S08) (t : Nat) : Gather.Cfg :=
   { dsets := s.dsets, scaled := s.scaled, threshold := t, track := s.track, orig := s.q }
 
+def showCounter (c : List (Nat × Nat)) : String :=
+  if c.isEmpty then "-" else ",".intercalate (c.map (fun e => s!"{e.1}:{e.2}"))
+
+/-- run-length encoding `<n>x<label>;…` -/
+def rle (labels : List String) : String :=
+  let runs := labels.foldl (fun (acc : List (Nat × String)) l =>
+    match acc with
+    | (n, l') :: rest => if l' == l then (n + 1, l') :: rest else (1, l) :: acc
+    | [] => [(1, l)]) []
+  joinRows (runs.reverse.map (fun r => s!"{r.1}x{r.2}"))
+
+/-- the dataset set a query hash is paired with (`decOne` decrements exactly the datasets holding the hash) -/
+def colourOf (dsets : List (List Nat)) (h : Nat) : String :=
+  let ids := (List.range dsets.length).filter (fun d => (Gather.dsOf dsets d).contains h)
+  if ids.isEmpty then "-" else "+".intercalate (ids.map toString)
+
+def memoFor (s : S08) (t : Nat) : Memo :=
+  match s.memo with
+  | some m => if m.t == t then m else go
+  | none => go
+where go : Memo :=
+  let ms := GatherSpec.cover s.dsets t (s.q.map (·.1))
+  { t := t, rows := Gather.gather (cfgOf s t), ms := ms, st := GatherSpec.stats s.scaled s.q ms }
+
 def stepC08 (s : S08) (ws : List String) : S08 × Resp :=
   match ws with
   | "case" :: rest =>
     let sc := (rest.getD 1 "1").toNat!
     let tr := rest.getD 2 "0" == "1"
     ({ scaled := sc, track := tr }, { model := "ok" })
-  | ["d", hs] => ({ s with dsets := s.dsets ++ [natList hs] }, { model := "ok" })
+  | ["d", hs] => ({ s with dsets := s.dsets ++ [natList hs], memo := none }, { model := "ok" })
   | "d" :: _ => (s, { model := "bad-op" })
   | "q" :: hs :: rest =>
     let hs := natList hs
     let ab := natList (rest.getD 0 "-")
     let ab := if s.track && ab.length == hs.length then ab else hs.map (fun _ => 1)
-    ({ s with q := hs.zip ab }, { model := "ok" })
+    ({ s with q := hs.zip ab, memo := none }, { model := "ok" })
+  | "counter" :: _ =>
+    if s.dsets.isEmpty then (s, { model := "no-datasets" }) else
+    let qk := s.q.map (·.1)
+    -- spec: `|q ∩ D_d|` for every dataset sharing a hash with the query
+    let ref := (List.range s.dsets.length).filterMap (fun d =>
+      let o := GatherSpec.overlap (s.dsets.getD d []) qk
+      if o == 0 then none else some (d, o))
+    (s, { model := showCounter (Gather.prepareCounter s.dsets qk), spec := showCounter ref })
+  | "colors" :: _ =>
+    if s.dsets.isEmpty then (s, { model := "no-datasets" }) else
+    (s, { model := rle (s.q.map (fun p => colourOf s.dsets p.1)) })
   | op :: t :: _ =>
     let t := t.toNat!
     if s.dsets.isEmpty then (s, { model := "no-datasets" }) else
-    let rows := Gather.gather (cfgOf s t)
-    let ms := GatherSpec.cover s.dsets t (s.q.map (·.1))
-    let st := GatherSpec.stats s.scaled s.q ms
+    let m := memoFor s t
+    let s := { s with memo := some m }
+    let rows := m.rows
+    let ms := m.ms
+    let st := m.st
     if op == "gather" then
       (s, { model := joinRows (rows.map (showRow s.track)) })
     else if op == "cover" then
